@@ -53,6 +53,9 @@ class AsmData:
                 for sp in (few if tier == "thorough" else ["dec3", "neg3"]):
                     out.append({"id": "%s/%d/%s" % (d, k, sp), "kind": "list", "dir": d, "spell": [sp] * k,
                                 "bounded": "list length %d" % k if k > 3 else None})
+            # character literals, binary and short spellings inside lists (the list parser has its own path for every element)
+            for combo in (["chr", "chr"], ["chr", "hex2"], ["dec1", "chr"], ["bin8", "hex1"], ["chr", "chr", "chr"]):
+                out.append({"id": "%s/%d/%s" % (d, len(combo), ",".join(combo)), "kind": "list", "dir": d, "spell": combo})
             out.append({"id": "%s/2/equ,lit" % d, "kind": "list", "dir": d, "spell": ["dec3", "dec3"], "via": "equ-first"})
             out.append({"id": "%s/64/concrete" % d, "kind": "concrete-list", "dir": d, "bounded": "one concrete list of 64 values"})
             out.append({"id": "%s/8/one-symbolic" % d, "kind": "list8", "dir": d, "bounded": "list of 8 values, one symbolic element at each position"})
